@@ -41,6 +41,8 @@ def literal_signs(fx, tok):
 
 
 def run(fx, rep):
+    from .report import producer_rules
+    producer_rules(fx, rep, 'producer rule: numeric literal nodes come only from their literal visitors; no constant folding elsewhere in the parser (C04 R5/R7/R9)', [('c04', 'C04', '^(R7/visit_(Int|Uint|Double|ConstantLiteral|Negate)/|R5/|R9/)')], 8)
     rep.rule('R1', 'float->int casts are dominated by NaN-excluding half-open range guards')
     rep.rule('R2', 'int<->uint conversions use try_into (no `as`)')
     rep.rule('R3', 'literal visitors: parse/from_str_radix on the token text, Err -> report_error, finite doubles only, no casts, no unwrap_or*')
